@@ -33,6 +33,7 @@ package internal
 //@   ensures [C14] accepted-only-if-element-assignable: implies(result != nil, asked && assignable)
 //@   ensures [C14] assignable-element-is-accepted: implies(asked && assignable, result != nil)
 //@   ensures [C14] accepted-records-element-type: implies(result != nil, result.ElemType == elemT && result.Function == fn)
+//@   ensures [C10,C14] accepted-slice-function-takes-an-optional-index-and-the-element-and-returns-at-most-an-error: implies(result != nil, result.Function != nil && len(result.Function.Outputs) == 0 && (len(result.Function.Inputs) == 1 || len(result.Function.Inputs) == 2) && result.HasIndexParameter == (len(result.Function.Inputs) == 2) && result.Slice == ce.Args[1])
 
 //@ func (*compiler).compileMap
 //@   option props=[C13]
@@ -56,6 +57,7 @@ package internal
 //@   at call AssignableTo 2 ghost valOK = ret
 //@   ensures [C14] accepted-only-if-key-and-value-assignable: implies(result != nil, askedKey && keyOK && askedVal && valOK)
 //@   ensures [C14] assignable-key-and-value-are-accepted: implies(askedKey && keyOK && askedVal && valOK, result != nil)
+//@   ensures [C10,C14] accepted-map-function-takes-key-and-value-and-returns-at-most-an-error: implies(result != nil, result.Function != nil && len(result.Function.Outputs) == 0 && len(result.Function.Inputs) == 2 && result.KeyType == keyT && result.ElemType == valT && result.Map == ce.Args[1])
 
 // ---------------------------------------------------------------------------
 // C13: the directive compiler never dies with a Go panic on type-correct
@@ -95,11 +97,13 @@ package internal
 
 //@ func (*compiler).compileSliceEnd
 //@   option props=[C13]
+//@   ensures [C10,C14] end-hook-takes-at-most-a-context-and-returns-at-most-an-error: implies(result != nil, len(result.Inputs) == 0 && len(result.Outputs) == 0)
 //@   requires $C && ce != nil
 //@   requires typeChecked-sliceend-has-function: len(ce.Args) >= 1
 
 //@ func (*compiler).compileMapEnd
 //@   option props=[C13]
+//@   ensures [C10,C14] end-hook-takes-at-most-a-context-and-returns-at-most-an-error: implies(result != nil, len(result.Inputs) == 0 && len(result.Outputs) == 0)
 //@   requires $C && ce != nil
 //@   requires typeChecked-mapend-has-function: len(ce.Args) >= 1
 
@@ -157,8 +161,35 @@ package internal
 //@   ensures [C11,C02] predicate-keeps-the-compiled-functions-signature-and-inputs: implies(result != nil, result.Function != nil && result.Function.Predicate == result && result.Task == t && result.Inputs == cf.Inputs && result.Function.Dependencies == cf.Inputs && result.Function.Sig == cf.Sig && result.Function.WantCtx == cf.WantCtx && result.Function.Node == cf.Node && result.SentinelOutput != nil)
 //@   at call TypeOf 1 assume library-a-signature-is-its-own-underlying-type: implies(typeof(ret) == typeid("*go/types.Signature"), pure("invoke go/types.Type.Underlying", ret) == ret)
 
+// C14 / C13, cff.Parallel: an End hook together with ContinueOnError is
+// reported for every Slice and Map that has one (ghost maps rs / rm record the
+// diagnostics; the invariants are checked on every back edge); no-panic sweep.
+//@ macro PAROK = forall(i, int, implies(0 <= i && i < len(parallel.Tasks), parallel.Tasks[i] != nil)) && forall(i, int, implies(0 <= i && i < len(parallel.SliceTasks), parallel.SliceTasks[i] != nil)) && forall(i, int, implies(0 <= i && i < len(parallel.MapTasks), parallel.MapTasks[i] != nil)) && parallel != nil
+
+//@ func (*compiler).compileParallel
+//@   option props=[C13]
+//@   ghost rs map[int]bool
+//@   ghost rm map[int]bool
+//@   requires $C && call != nil && file != nil
+//@   requires typeChecked-parallel-has-a-context-argument: len(call.Args) >= 1
+//@   at call Name 1 assume typeChecked-options-have-their-arguments: implies(ret == "Task" || ret == "Concurrency" || ret == "ContinueOnError" || ret == "WithEmitter" || ret == "InstrumentParallel", len(ce.Args) >= 1) && implies(ret == "Slice" || ret == "Map", len(ce.Args) >= 2)
+//@   at call compileInstrument 1 pre assume typeChecked-instrument-arity: len(arg1.Args) == 1
+//@   at call compileParallelTasks 1 assume compiled-tasks-are-non-nil: forall(i, int, implies(0 <= i && i < len(ret), ret[i] != nil))
+//@   loop 1 invariant collected-tasks-are-non-nil: $PAROK
+//@   loop 2 invariant [C14] slice-end-with-continue-on-error-reported-so-far: $PAROK && 0 <= idx2 && idx2 <= len(parallel.SliceTasks) && forall(i, int, implies(0 <= i && i < idx2 && parallel.SliceTasks[i].SliceEndFn != nil && parallel.ContinueOnError != nil, rs[i]))
+//@   at call errf 5 ghost rs[idx2] = true
+//@   loop 3 invariant [C14] map-end-with-continue-on-error-reported-so-far: $PAROK && 0 <= idx3 && idx3 <= len(parallel.MapTasks) && forall(i, int, implies(0 <= i && i < idx3 && parallel.MapTasks[i].MapEndFn != nil && parallel.ContinueOnError != nil, rm[i])) && forall(i, int, implies(0 <= i && i < len(parallel.SliceTasks) && parallel.SliceTasks[i].SliceEndFn != nil && parallel.ContinueOnError != nil, rs[i]))
+//@   at call errf 6 ghost rm[idx3] = true
+//@   ensures@return2 [C14] every-end-hook-under-continue-on-error-was-reported: forall(i, int, implies(0 <= i && i < len(result.SliceTasks) && result.SliceTasks[i].SliceEndFn != nil && result.ContinueOnError != nil, rs[i])) && forall(i, int, implies(0 <= i && i < len(result.MapTasks) && result.MapTasks[i].MapEndFn != nil && result.ContinueOnError != nil, rm[i]))
+
+//@ func (*compiler).validateParallelInstrument
+//@   option props=[C13]
+//@   requires $C && p != nil
+//@   requires tasks-non-nil: forall(i, int, implies(0 <= i && i < len(p.Tasks), p.Tasks[i] != nil))
+
 //@ func (*compiler).compileParallelTaskFn
 //@   option props=[C13]
+//@   ensures [C10,C14] parallel-task-takes-at-most-a-context-and-returns-at-most-an-error: implies(result != nil, result.Function != nil && $TLEN($PARAMS(result.Function.Sig)) == ite(result.Function.WantCtx, 1, 0) && $TLEN(pure("(*go/types.Signature).Results", result.Function.Sig)) == ite(result.Function.HasError, 1, 0))
 //@   requires $C && p != nil
 
 //@ func (*compiler).compileParallelTask
@@ -172,6 +203,7 @@ package internal
 
 //@ func checkParallelTask
 //@   option props=[C13]
+//@   ensures [C10,C14] accepted-iff-no-inputs-and-no-outputs: (result == nil) == (len(fn.Inputs) == 0 && len(fn.Outputs) == 0)
 //@   requires fn != nil
 
 //@ macro PREDFRESH = implies(t.Predicate != nil, t.Predicate.Function != nil && t.Predicate.Function != t.Function && forall(i, int, implies(0 <= i && i < len(flow.Funcs), flow.Funcs[i] != t.Predicate.Function)))
